@@ -260,6 +260,13 @@ class Connector:
     connected.upon(accept, enter=connected, outputs=[])
     connected.upon(stop, enter=stopped, outputs=[stop_everything])
 
+    # once stopped, late events from listeners, hints, handshakes that were
+    # still in flight, or the eventual-send of accept() are ignored too
+    stopped.upon(listener_ready, enter=stopped, outputs=[])
+    stopped.upon(got_hints, enter=stopped, outputs=[])
+    stopped.upon(add_candidate, enter=stopped, outputs=[])
+    stopped.upon(accept, enter=stopped, outputs=[])
+
     # from Manager: start, got_hints, stop
     # maybe add_candidate, accept
 
